@@ -2,7 +2,7 @@
    range.  Only the property theorems, each closed by [exact]; proofs live in
    Midi/MidiProofs.v, the model in Midi/MidiModel.v, the Spec in Midi/MidiSpec.v. *)
 From Coq Require Import List ZArith QArith.
-From RtoscV Require Import Midi.MidiModel Midi.MidiSpec Midi.MidiProofs Midi.MidiFloat Midi.MidiProto Midi.MidiNrt Midi.MidiSilent Midi.MidiInv Midi.MidiRefine Midi.MidiRound.
+From RtoscV Require Import Midi.MidiModel Midi.MidiSpec Midi.MidiProofs Midi.MidiFloat Midi.MidiProto Midi.MidiNrt Midi.MidiSilent Midi.MidiInv Midi.MidiRefine Midi.MidiRound Midi.MidiValues.
 Import ListNotations.
 Local Open Scope Z_scope.
 
@@ -178,18 +178,19 @@ Proof. exact quiescent_silent. Qed.
 
 (* Refinement against the abstract specification MidiSpec.astep (a finite map
    controller -> (address, coarse|fine), a FIFO of addresses waiting to learn,
-   the realtime side's delayed copy, 7-bit values; no slots, index vectors,
-   inv_map or ring): on every quiescent history the model emits, event by
-   event, exactly the records the specification emits - same queue traffic,
-   same assignments (oldest queued address), a parameter message exactly when
-   the specification's table has the controller and to exactly that address;
-   none for unassigned controllers; unMap/clear/relearn change only what the
-   table says.  _partial: quiescent, <= 32 controllers, and `erase` drops the
-   value a message carries (that the value is the 14-bit composition pushed
-   through the port's callback is C20_compose_14bit + C20_bijection_*; its
-   preservation across cloneValues is not part of this theorem). *)
+   the realtime side's delayed copy, the last 7-bit value of every controller
+   in it, the 14-bit value of an address = coarse*128 + fine pushed through
+   the port's callback; no slots, index vectors, inv_map, cloneValues or
+   ring): on every quiescent history the model emits, event by event, exactly
+   the records the specification emits - same queue traffic, same
+   assignments (oldest queued address), and every parameter message with
+   exactly the specification's address AND value; none for unassigned
+   controllers; unMap / clear / relearn change only what the table says; the
+   two 7-bit halves survive every rebuilt snapshot (cloneValues).
+   _partial: quiescent (the full statement is refuted, C20_refuted) and
+   <= 32 controllers (tight: C20_capacity_refuted). *)
 Theorem C20_refines_spec_partial : forall ports evs tr fin U,
   (length U <= 32)%nat -> incl (ccids evs) U -> Forall (evok ports) evs ->
   run ports world0 evs = (tr, fin) -> quiescent evs tr = true ->
-  map (map erase) tr = map (map erase) (arun ports astate0 evs).
-Proof. exact refine_quiescent. Qed.
+  tr = arun ports astate0 evs.
+Proof. exact refine_quiescent_values. Qed.
